@@ -218,7 +218,7 @@ func (f *Factory) Make(spec BlockSpec) (block *types.Block, invalid types.Transa
 	}
 	txs := make(types.Transactions, len(spec.Txs))
 	for i, tx := range spec.Txs {
-		txs[i] = tx.Clone()
+		txs[i] = CloneTx(tx)
 	}
 	block, invalid, err = asm.MineBlock(header, txs, HugeTimeout)
 	if err != nil {
@@ -319,4 +319,18 @@ func TouchedAddresses(b *types.Block) []common.Address {
 	}
 	sort.Sort(l)
 	return l
+}
+
+// CloneTx copies a transaction through its wire encoding. (types.Transaction.Clone dereferences the
+// gasPayer pointer, which is nil for a transaction that arrived with an empty gasPayer field.)
+func CloneTx(tx *types.Transaction) *types.Transaction {
+	enc, err := rlp.EncodeToBytes(tx)
+	if err != nil {
+		panic(err)
+	}
+	var out types.Transaction
+	if err := rlp.DecodeBytes(enc, &out); err != nil {
+		panic(err)
+	}
+	return &out
 }
